@@ -61,7 +61,7 @@ def ensure_overrides():
         raise Infra("javac failed: " + r.stderr)
 
 
-def build_harness(race=False, pkg=".", name="harness", goarch=None, tags=None):
+def build_harness(race=False, pkg=".", name="harness", goarch=None, tags=None, goos=None):
     """go build the harness against REPO's current working tree, hooks enabled."""
     out = os.path.join(scratch("verif-bin-"), name + (goarch or "") + (tags or ""))
     hdir = os.path.join(V, "harness")
@@ -76,7 +76,10 @@ def build_harness(race=False, pkg=".", name="harness", goarch=None, tags=None):
     except OSError:
         pass
     cmd = ["go", "build", "-tags", "verif" + ("," + tags if tags else "")] + (["-race"] if race else []) + ["-o", out, pkg]
-    r = subprocess.run(cmd, cwd=work, env=dict(GOENV, GOARCH=goarch, CGO_ENABLED="0") if goarch else GOENV, capture_output=True, text=True)
+    benv = dict(GOENV, GOARCH=goarch, CGO_ENABLED="0") if goarch else dict(GOENV)
+    if goos:
+        benv["GOOS"] = goos
+    r = subprocess.run(cmd, cwd=work, env=benv, capture_output=True, text=True)
     if r.returncode != 0:
         raise Infra("harness build failed (does /repo compile with -tags verif?):\n" + r.stderr[-3000:])
     return out
